@@ -256,6 +256,18 @@ class Ctx:
                     st.append(y)
         return seen
 
+    def batch_const(self):
+        """value of the batch-size constant (the property's R): the crate's usize constant named `R` wherever it lives, else the only
+        crate-level usize constant"""
+        cs = [c for c in self.facts.consts.values() if c.get("ty") == "usize" and c.get("val") is not None]
+        named = [c for c in cs if c["path"].rsplit("::", 1)[-1] == "R"]
+        pick = named if len(named) == 1 else (cs if len(cs) == 1 else [])
+        return pick[0]["val"] if pick else None
+
+    def core_module(self):
+        """definition module of the split table (griddle::raw), from the ADT's own path"""
+        return self.roles.S.rsplit("::", 1)[0]
+
     def memo(self, key, fn):
         if key not in self._cache:
             self._cache[key] = fn()
